@@ -78,6 +78,7 @@ type CountingFilerStore struct {
 	budget           int64 // 0 = unlimited
 	listCalls        int64
 	prefixedNonEmpty int64
+	restarts         int64 // calls after the first of a request that start again from the empty name
 	exceeded         bool
 	TotalListCalls   int64
 }
@@ -89,8 +90,16 @@ func NewCountingFilerStore(inner filer.FilerStore) *CountingFilerStore {
 // Begin starts a new request with the given budget of listing calls.
 func (c *CountingFilerStore) Begin(budget int64) {
 	c.mu.Lock()
-	c.budget, c.listCalls, c.prefixedNonEmpty, c.exceeded = budget, 0, 0, false
+	c.budget, c.listCalls, c.prefixedNonEmpty, c.restarts, c.exceeded = budget, 0, 0, 0, false
 	c.mu.Unlock()
+}
+
+// Restarts returns how many listing calls since Begin, other than the first one, started
+// from the empty name again (a continuation never needs that: it starts after a name).
+func (c *CountingFilerStore) Restarts() int64 {
+	c.mu.Lock()
+	defer c.mu.Unlock()
+	return c.restarts
 }
 
 // Calls returns (listing calls, prefixed calls with a non-empty prefix, budget exceeded) since Begin.
@@ -100,10 +109,13 @@ func (c *CountingFilerStore) Calls() (int64, int64, bool) {
 	return c.listCalls, c.prefixedNonEmpty, c.exceeded
 }
 
-func (c *CountingFilerStore) step(prefix string) error {
+func (c *CountingFilerStore) step(prefix, start string) error {
 	c.mu.Lock()
 	defer c.mu.Unlock()
 	c.listCalls++
+	if c.listCalls > 1 && start == "" {
+		c.restarts++
+	}
 	c.TotalListCalls++
 	if prefix != "" {
 		c.prefixedNonEmpty++
@@ -116,14 +128,14 @@ func (c *CountingFilerStore) step(prefix string) error {
 }
 
 func (c *CountingFilerStore) ListDirectoryEntries(ctx context.Context, dirPath util.FullPath, startFileName string, includeStartFile bool, limit int64, eachEntryFunc filer.ListEachEntryFunc) (string, error) {
-	if err := c.step(""); err != nil {
+	if err := c.step("", startFileName); err != nil {
 		return "", err
 	}
 	return c.FilerStore.ListDirectoryEntries(ctx, dirPath, startFileName, includeStartFile, limit, eachEntryFunc)
 }
 
 func (c *CountingFilerStore) ListDirectoryPrefixedEntries(ctx context.Context, dirPath util.FullPath, startFileName string, includeStartFile bool, limit int64, prefix string, eachEntryFunc filer.ListEachEntryFunc) (string, error) {
-	if err := c.step(prefix); err != nil {
+	if err := c.step(prefix, startFileName); err != nil {
 		return "", err
 	}
 	return c.FilerStore.ListDirectoryPrefixedEntries(ctx, dirPath, startFileName, includeStartFile, limit, prefix, eachEntryFunc)
